@@ -123,6 +123,12 @@ func (e *env) newServerPanics() string {
 // ---------------------------------------------------------------- request building
 
 func grpcMethod(c *Case) string {
+	if c.Msg == "req" {
+		if c.Shape == "cs" {
+			return full("CSR")
+		}
+		return full("EchoR")
+	}
 	switch c.Shape {
 	case "unary":
 		return full("Echo")
@@ -173,6 +179,12 @@ func httpParts(c *Case) (method, path string, hdr http.Header, body []byte) {
 		method, path = "GET", "/l/download/"+c.ID
 	case "downloadu":
 		method, path = "GET", "/l/downloadu/"+c.ID
+	}
+	if c.Msg == "req" {
+		path = "/l/echor"
+		if c.Shape == "cs" {
+			path = "/l/csr"
+		}
 	}
 	switch {
 	case method == "GET":
@@ -511,7 +523,7 @@ func (e *env) execGrpcGo(c *Case) *outcome {
 	}
 	var reqs []proto.Message
 	for _, enc := range c.Reqs {
-		m, err := decodeReq("proto", enc)
+		m, err := decodeMsg(c, enc)
 		if err != nil {
 			o.Terr = "bad request encoding: " + err.Error()
 			return o
